@@ -60,3 +60,14 @@ func VHJSONLoad() {
 	c, _ := VGQueue()
 	containers.VJSONLoad(vJSON(c))
 }
+
+func VHHistory() {
+	q := NewWith[int](vl.Cmp)
+	binaryheap.VHeapHistory(binaryheap.VHeapLike{
+		Push: func(xs ...int) {
+			for _, x := range xs {
+				q.Enqueue(x)
+			}
+		},
+		Pop: q.Dequeue, Peek: q.Peek, Clear: q.Clear, Values: q.Values, Size: q.Size, Empty: q.Empty, String: q.String, Heap: q.heap, Name: "PriorityQueue"})
+}
